@@ -31,10 +31,11 @@ import vlib
 from vlib import VERIF
 
 SPEC = os.path.join(VERIF, "spec", "Lattice")
-TYPES = ["pin", "slider", "weld", "universal", "cylinder", "bendstretch", "planar", "translation", "gimbal", "bushing", "ball", "free"]
+TYPES = ["pin", "slider", "weld", "universal", "cylinder", "bendstretch", "planar", "translation", "gimbal", "bushing", "ball", "free", "euler5"]
 KINDS = {"pin": "a", "slider": "l", "weld": "", "universal": "aa", "cylinder": "al", "bendstretch": "al", "planar": "all",
-         "translation": "lll", "gimbal": "aaa", "bushing": "aaalll", "ball": "cccc", "free": "cccclll"}
-NU = {t: (3 if t == "ball" else 6 if t == "free" else len(KINDS[t])) for t in TYPES}
+         "translation": "lll", "gimbal": "aaa", "bushing": "aaalll", "ball": "cccc", "free": "cccclll", "balle": "aaa", "freee": "aaalll", "euler5": "aaall"}
+FB_TYPES = ("pin", "slider", "universal", "cylinder", "planar", "translation", "gimbal", "bushing", "euler5")
+NU = {t: (3 if t == "ball" else 6 if t == "free" else len(KINDS[t])) for t in KINDS}
 # rational unit quaternions (numerators over 5^e) and what they cost in powers of 5
 QUATS = [([1, 0, 0, 0], 0, 0), ([0, 1, 0, 0], 0, 0), ([0, 0, 0, 1], 0, 0), ([0, 0, -1, 0], 0, 0),
          ([3, 4, 0, 0], 1, 2), ([3, 0, -4, 0], 1, 2), ([0, 3, 0, 4], 1, 2), ([4, 0, 0, 3], 1, 2), ([0, 0, 3, -4], 1, 2),
@@ -98,14 +99,14 @@ class Gen:
         a, c = self.angle(budget)
         return {"ax": self.r.choice("xyz"), "k": a["k"], "m": a["m"]}, vec(), c
 
-    def body(self, parent, typ, rev, fcls, mcls, budget):
+    def body(self, parent, typ, rev, fcls, mcls, budget, budget2=2):
         RF, pF, c1 = self.frame(fcls, budget)
         RM, pM, c2 = self.frame(mcls, budget - c1)
         budget -= c1 + c2
         q = []
         for idx, kd in enumerate(KINDS[typ]):
             if kd == "a":
-                a, c = self.angle(budget, middle=(idx == 1 and typ in ("universal", "gimbal", "bushing")))
+                a, c = self.angle(budget, middle=(idx == 1 and typ in ("universal", "gimbal", "bushing", "balle", "freee", "euler5")))
                 budget -= c
                 q.append(a)
             elif kd == "l":
@@ -117,18 +118,21 @@ class Gen:
             q = [{"k": v, "m": e} for v in comp] + q
         u = [self.r.randint(-2, 2) for _ in range(NU[typ])]
         # a second, independent coordinate / speed set: the target of the fitting operations
-        q2, b2 = [], 2
+        # (the second set is also a second configuration of the whole model: it shares the path budget of powers of 5)
+        q2, b2 = [], budget2
         for idx, kd in enumerate(KINDS[typ]):
             if kd == "a":
-                a, c = self.angle(b2, middle=(idx == 1 and typ in ("universal", "gimbal", "bushing")))
+                a, c = self.angle(b2, middle=(idx == 1 and typ in ("universal", "gimbal", "bushing", "balle", "freee", "euler5")))
                 b2 -= c
                 q2.append(a)
             elif kd == "l":
                 # BendStretch is polar coordinates: its fitting uses the canonical form r >= 0
                 q2.append({"k": self.r.randint(0 if typ == "bendstretch" else -2, 2), "m": 0})
         if "c" in KINDS[typ]:
-            comp, e, c = self.r.choice(QUATS)
+            comp, e, c = self.r.choice([x for x in QUATS if x[2] <= b2])
+            b2 -= c
             q2 = [{"k": v, "m": e} for v in comp] + q2
+        self.left2 = b2
         self.last_fit = (q2, [self.r.randint(-2, 2) for _ in range(NU[typ])])
         d = {"parent": parent, "type": typ, "rev": int(rev), "RF": RF, "pF": pF, "RM": RM, "pM": pM,
              "mass": self.r.choice([2, 3, 2, 3, 5, 1]), "com": [self.r.randint(-1, 2) for _ in range(3)] if self.r.random() < 0.8 else [0, 0, 0],
@@ -138,10 +142,23 @@ class Gen:
     def config(self, spec, dyn, budget):
         """spec: list of (parent, type, rev, fcls, mcls); budget: powers of 5 allowed on every root path"""
         desc, qs, us, left, q2s, u2s = [], [], [], {0: budget}, [], []
+        left2 = {0: 2}
+        # representation: with probability 1/4 the whole model uses the Euler-angle option (Ball / Free then have angle coordinates)
+        euler = int(self.r.random() < 0.25 and any(t[1] in ("ball", "free") for t in spec))
+        if euler:
+            spec = [(p, {"ball": "balle", "free": "freee"}.get(t, t), rv, f, m) for (p, t, rv, f, m) in spec]
         for i, (parent, typ, rev, fcls, mcls) in enumerate(spec, 1):
-            d, q, u, b = self.body(parent, typ, rev, fcls, mcls, left[parent])
+            d, q, u, b = self.body(parent, typ, rev, fcls, mcls, left[parent], min(left[parent], left2[parent]))
             left[i] = b
+            left2[i] = min(self.left2, b)
+            if typ == "euler5":
+                d["fb"] = 1
+            d["fb"] = int(typ == "euler5" or (typ in FB_TYPES and self.r.random() < 0.25))       # the user-defined (FunctionBased) route to the same mobilizer
             desc.append(d); qs.append(q); us.append(u); q2s.append(self.last_fit[0]); u2s.append(self.last_fit[1])
+        for i, d in enumerate(desc, 1):      # massless INTERMEDIATE bodies (compound joints): only bodies that carry a massive child
+            kids = [c for c in desc if c["parent"] == i]
+            if kids and all(k["mass"] > 0 for k in kids) and self.r.random() < 0.2:
+                d["mass"], d["com"], d["ic"] = 0, [0, 0, 0], [0, 0, 0]
         if all(v == 0 for uu in us for v in uu) and any(us):
             for uu in us:
                 if uu:
@@ -157,7 +174,7 @@ class Gen:
         self.r.shuffle(tb)
         vec = lambda: [self.r.randint(-2, 2) for _ in range(3)]
         tasks = [{"b": b, "st": vec(), "f": vec(), "T": vec()} for b in tb]
-        return {"desc": desc, "q": qs, "u": us, "dyn": int(dyn), "ud": ud, "F": F, "q2": q2s, "u2": u2s, "tasks": tasks,
+        return {"desc": desc, "q": qs, "u": us, "dyn": int(dyn), "ud": ud, "F": F, "q2": q2s, "u2": u2s, "tasks": tasks, "euler": euler,
                 "locked": [int(self.r.random() < 0.3) for _ in desc]}
 
 
@@ -237,14 +254,15 @@ def solve(M, b):
     return x
 
 
-def is_spd(M):
+def is_spd(M, rel=0.0):
     n = len(M)
+    scale = max([1.0] + [abs(M[i][i]) for i in range(n)])
     L = [[0.0] * n for _ in range(n)]
     for i in range(n):
         for j in range(i + 1):
             s = M[i][j] - sum(L[i][k] * L[j][k] for k in range(j))
             if i == j:
-                if s <= 0:
+                if s <= rel * scale:
                     return False
                 L[i][j] = math.sqrt(s)
             else:
@@ -259,7 +277,7 @@ def compare(cfg, want, got):
     """-> list of (property, what, detail)"""
     res = []
     if got.get("exc"):
-        return [(p, "exception", got["exc"]) for p in ("C05", "C03", "C04", "C01", "C15", "C02", "C14", "C10")]
+        return [(p, "exception", got["exc"]) for p in ("C05", "C03", "C04", "C01", "C15", "C02", "C14", "C10", "C06")]
     w = conv(want)
 
     def chk(prop, what, a, b):
@@ -285,6 +303,16 @@ def compare(cfg, want, got):
         chk("C05", "setUToFitLinearVelocity/reversed-with-angular-velocity" if rev_lin else "setUToFitAngular-then-LinearVelocity/" + typ,
             [fw["w"], fw["v"]], [fg["w2"], fg["v2"]])
     vel_ok = chk("C03", "velocity", w["V"], got["V"])
+    # representation independence: FunctionBased route / Euler option are already inside X, V above; the converted state:
+    chk("C06", "pose-after-representation-conversion", w["X"], got["Xconv"])
+    chk("C06", "velocity-after-representation-conversion", w["V"], got["Vconv"])
+    special = [d["type"] + ("-fb" if d.get("fb") else "") + ("-rev" if d["rev"] else "") for d in cfg["desc"] if d.get("fb") or d["rev"] or d["type"] in ("balle", "freee")]
+    if special:     # the same comparisons, attributed to C06 when a non-default representation / route / direction is involved
+        chk("C06", "pose/" + "+".join(sorted(set(special))), w["X"], got["X"])
+        chk("C06", "velocity/" + "+".join(sorted(set(special))), w["V"], got["V"])
+        chk("C06", "mass-matrix/" + "+".join(sorted(set(special))), w["M"], got["M"])
+        if cfg["dyn"]:
+            chk("C06", "bias/" + "+".join(sorted(set(special))), w["bias"], got["bias"])
     if poses_ok and not vel_ok:
         res.append(("C05", "speed-meaning", res[-1][2]))
     vsc = max([1.0] + [abs(v) for v in flat(w["V"])])
@@ -310,6 +338,19 @@ def compare(cfg, want, got):
     if cfg["dyn"]:
         chk("C04", "frame-jacobian-bias", [[t["aw"], t["a"]] for t in w["taskA0"]], [[t["aw"], t["a"]] for t in got["taskA0"]])
         chk("C04", "station-jacobian-bias", [t["a"] for t in w["taskA0"]], [t["as"] for t in got["taskA0"]])
+    chk("C15", "composite-body-inertia", [[b["mass"], b["mcom"], b["I"]] for b in w["comp"]], [[b["mass"], b["mcom"], b["I"]] for b in got["comp"]])
+    # the same State object at the second configuration and back at the first (stale kinematics would show here)
+    chk("C05", "pose-after-moving-the-state", w["X2"], got["X2"])
+    chk("C03", "velocity-after-moving-the-state", w["V2"], got["V2"])
+    chk("C05", "pose-after-moving-the-state-back", w["X"], got["X3"])
+    chk("C03", "velocity-after-moving-the-state-back", w["V"], got["V3"])
+    chk("C05", "pose-through-lazy-kinematics", w["X"], got["X4"])
+    chk("C05", "pose-through-lazy-kinematics", w["X2"], got["X5"])
+    chk("C03", "velocity-through-lazy-kinematics", w["V2"], got["V5"])
+    # FunctionBased mobilizers keep H in a cache that only the full realize(Position) invalidates (its own call site)
+    fbq = any(d.get("fb") and d["type"] in ("universal", "gimbal", "bushing", "euler5") for d in cfg["desc"])
+    chk("C03", "velocity-through-lazy-kinematics/function-based-mobilizer-stale-H" if fbq else "velocity-through-lazy-kinematics", w["V"], got["V4"])
+    small("C04", "system-jacobian-after-moving-the-state", got["errJ2"], max([1.0] + [abs(v) for v in flat(w["V2"])]))
     chk("C15", "kinetic-energy-sum", w["ke2"], got["ke2"])
     chk("C15", "linear-momentum", w["P"], got["P"])
     chk("C15", "momentum-is-mass-times-vcom", w["P"], got["vcom"])
@@ -362,6 +403,11 @@ def run(pid, tier, rep, replay=None):
     want, skipped, bad = evaluate(cfgs, work, cov)
     if bad:
         raise vlib.Infra("the specification's own identity %s fails at configuration %s" % (bad[1], json.dumps(cfgs[bad[0]])))
+    # a model whose EXACT mass matrix is singular (massless bodies carrying more mobilities than their massive
+    # outboard bodies can resist) has no forward dynamics: such configurations are dropped (counted)
+    singular = [i for i in sorted(want) if len(want[i]["M"]) and not is_spd(conv(want[i]["M"]), 1e-9)]
+    for i in singular:
+        del want[i]
     idx = sorted(want)
     pfile, ofile = os.path.join(work, "run.ndjson"), os.path.join(work, "out.ndjson")
     with open(pfile, "w") as f:
@@ -394,6 +440,11 @@ def run(pid, tier, rep, replay=None):
             rep.violation(sig, {"config": c}, "%s differs for the tree %s: %s" % (what, json.dumps(c)[:400], detail))
     cov["configurations"] = len(cfgs)
     cov["skipped_integer_range"] = len(skipped)
+    cov["skipped_singular_model"] = len(singular)
+    cov["euler_option_configurations"] = sum(1 for i in idx if cfgs[i].get("euler"))
+    cov["function_based_bodies"] = sum(1 for i in idx for d in cfgs[i]["desc"] if d.get("fb"))
+    cov["massless_bodies"] = sum(1 for i in idx for d in cfgs[i]["desc"] if d["mass"] == 0)
+    cov["locked_mobilizers"] = sum(1 for i in idx if cfgs[i]["dyn"] for b in cfgs[i]["locked"] if b)
     cov["mobilizers_exercised"] = types_seen
     cov["dynamics_configurations"] = sum(1 for i in idx if cfgs[i]["dyn"])
     for i in idx[:1] + idx[-1:]:
